@@ -161,6 +161,8 @@ type Out struct {
 	FailStats   map[string]int `json:"failure_history_stats"`
 	AliasBlocks int            `json:"alias_sequences"`
 	FarIDCalls  int            `json:"far_id_calls"`
+	ConvCalls   int            `json:"conversion_calls"`
+	ConvGround  int            `json:"conversion_monitor_pairs"`
 	Distinct    int            `json:"distinct_scenarios"`
 	Samples     []Scenario     `json:"samples"`
 }
@@ -1089,6 +1091,37 @@ func TestGen(t *testing.T) {
 				out.Violations = append(out.Violations, Violation{Key: "index:large-or-wrapped-share-id",
 					What:   fmt.Sprintf("%s(%v) [%s]: got %s, the pure function over the integers gives %s", c.Op, c.IDs, c.Note, short(got), short(c.Expect)),
 					Replay: Scenario{Kind: "fail_sequence", N: c.N, T: c.T, GCalls: []GCall{c}}})
+			}
+		}
+	}
+
+	// ---- J. tblsconv: conversions are the byte-level identity, pure and history independent (conv_test.go)
+	{
+		seqs := convCalls(r)
+		pairs := 2
+		if thorough {
+			pairs = 6
+		}
+		for k := 0; k < pairs; k++ {
+			n := 3 + k%3
+			if m := convMonitor(t, r, hx.Seed(), k, n, 2+k%(n-1), randMsg(r, msgLens[(k+2)%len(msgLens)])); m != nil {
+				seqs = append([][]GCall{m}, seqs...) // monitor sequences first: they give the most telling replay
+				out.ConvGround++
+			}
+		}
+		nv := 0
+		for _, seq := range seqs {
+			for i, c := range seq {
+				out.ConvCalls++
+				if got := execG(t, c); got != c.Expect {
+					if nv < 6 {
+						nv++
+						out.Violations = append(out.Violations, Violation{Key: "conv:result-depends-on-earlier-call",
+							What:   fmt.Sprintf("call %d of the conversion sequence, %s [%s]: got %s, the pure conversion gives %s", i, c.Op, c.Note, short(got), short(c.Expect)),
+							Replay: Scenario{Kind: "fail_sequence", GCalls: seq[:i+1]}})
+					}
+					break
+				}
 			}
 		}
 	}
